@@ -22,7 +22,7 @@ RULE = ("one case = one LDAWrapper history: matrix class/inner solver/flags/tole
         "distinct = distinct abstract traces (op kind, rhs kind, trans, dtype kinds, reuse outcome); non-trivial = at "
         "least one solve was answered from the database (reuse hit) or followed an update that discarded a non-empty database")
 PROBES = ["reuse_hit", "adjoint_storage", "conj_mode", "decoupled_dofs", "rows_only_decoupled", "cols_only_decoupled",
-          "real_after_complex", "complex_after_real", "x0_nonempty_db", "zero_rhs", "zero_column", "dependent_block",
+          "real_after_complex", "complex_after_real", "x0_nonempty_db", "fortran_ordered_matrix", "zero_rhs", "zero_column", "dependent_block",
           "update_after_solves", "badly_scaled_block", "fresh_twin_also_raises", "reuse_judged", "reuse_not_judged_mixed_dtype", "reuse_not_judged_rank",
           "cholesky_fallback", "two_wrappers", "stored_zeros_fixed_structure", "rhs_fortran_order", "rhs_strided_view", "matrix_given_to_constructor"]
 FAULT_KINDS = ["cholesky_fail_forced", "cholesky_fail_natural", "inexact_inner_solver"]
@@ -76,7 +76,8 @@ def gen(rng, idx, tier):
     flags = "explicit" if rng.random() < 0.5 else "auto"
     tol = float(rng.choice([1e-5, 1e-7, 1e-9])) if inner != "cg" else float(rng.choice([1e-5, 1e-7]))
     nwr = 2 if rng.random() < 0.15 else 1
-    case = dict(n=n, cls=cls, cplx=cplx, inner=inner, sparse=sparse, flags=flags, tol=tol, nwr=nwr, ops=[])
+    case = dict(n=n, cls=cls, cplx=cplx, inner=inner, sparse=sparse, flags=flags, tol=tol, nwr=nwr, ops=[],
+                layout=["C", "C", "F", "T"][idx % 4])
     nops = int(rng.integers(3, 40 if big else 16))
     kinds_enabled = [k for k in ["fresh", "repeat", "scale", "combo", "zero", "depblock", "zerocol", "block", "scaledblock"]
                      if rng.random() < 0.75] or ["fresh"]
@@ -319,7 +320,11 @@ def run(case):
         w = op.get("w", 0) % nwr
         m = model[w]
         if op["op"] == "update":
-            A = G.make_matrix(dict(mdesc, seed=op["seed"], pattern=op["pattern"], scale=op.get("scale", 1.0)))
+            A = G.make_matrix(dict(mdesc, seed=op["seed"], pattern=op["pattern"], scale=op.get("scale", 1.0),
+                                   layout=case.get("layout", "C")))
+            A_ref = A.copy()                # the oracle's own copy, taken before the wrapper sees the matrix
+            if isinstance(A, np.ndarray) and not A.flags.c_contiguous:
+                probe("fortran_ordered_matrix")
             via_ctor = False
             if W[w] is None:
                 W[w] = make_wrapper(case)
@@ -354,7 +359,7 @@ def run(case):
                 break
             if seams.state["chol_forced"] + seams.state["chol_natural"] > f0:
                 probe("cholesky_fallback")
-            m["A"] = A
+            m["A"] = A_ref
             if case["sparse"] and case["sparse"].endswith("_full") and op["pattern"] != "full":
                 probe("stored_zeros_fixed_structure")
             m["hist"] = {"N": [], "T": [], "H": []}
